@@ -9,7 +9,7 @@ git -C /repo worktree add -q --detach "$WT" HEAD
 trap 'git -C /repo worktree remove --force "$WT" 2>/dev/null; rm -rf "$WT"' EXIT
 case "$P" in
   -R:*) (cd "$WT" && git revert --no-commit "${P#-R:}" >/dev/null) ;;
-  *) git -C "$WT" apply "$P" ;;
+  *) git -C "$WT" apply "$P" 2>/dev/null || git -C "$WT" apply --3way "$P" ;;
 esac
 cd /verif
 set +e
